@@ -58,6 +58,10 @@ PROPS = {
             "suites": [{"suite": "access", "trace": "Trace_Access", "cfg": "Trace_Access.cfg", "sched_from": "MC_Access",
                         "extra": {"mode": "sched"}, "quick": {"runs": 0}, "thorough": {"runs": 0}, "procs": 4},
                        POOL_SUITE, VAULT_SUITE]},
+    "C17": {"mc": [{"module": "MC_Toggles", "quick": "MC_Toggles.cfg", "thorough": "MC_Toggles.cfg", "workers": 2, "emits": "MC_Toggles"}],
+            "suites": [{"suite": "toggles", "trace": "Trace_Toggles", "cfg": "Trace_Toggles.cfg", "sched_from": "MC_Toggles",
+                        "extra": {"mode": "sched"}, "quick": {"runs": 0}, "thorough": {"runs": 0}, "procs": 4},
+                       POOL_SUITE, VAULT_SUITE]},
     "C14": {"mc": [MC_POOL, MC_VAULT], "suites": [POOL_SUITE, VAULT_SUITE]},
     "C15": {"mc": [MC_POOL], "suites": [POOL_SUITE, MATH_SPREAD]},
 }
